@@ -22,6 +22,7 @@ import (
 	"gocloud.dev/blob/fileblob"
 	metav1 "k8s.io/apimachinery/pkg/apis/meta/v1"
 	"k8s.io/apimachinery/pkg/types"
+	k8scache "k8s.io/client-go/tools/cache"
 	"pgregory.net/rapid"
 
 	"github.com/dadrus/heimdall/internal/config"
@@ -67,6 +68,13 @@ func TestMain(m *testing.M) {
 			rw.Header().Set("Content-Type", "application/json")
 			rw.WriteHeader(http.StatusNotFound)
 			_, _ = rw.Write([]byte(`{"kind":"Status","apiVersion":"v1","status":"Failure","reason":"NotFound","code":404}`))
+
+			return
+		case 4, 5: // the object comes back with a status this instance did not write (another controller, an older version)
+			activeIn := map[int32]string{4: "1", 5: ""}[k8sMode.Load()]
+
+			rw.Header().Set("Content-Type", "application/json")
+			_, _ = rw.Write([]byte(`{"apiVersion":"heimdall.dadrus.github.com/v1alpha4","kind":"RuleSet","metadata":{"name":"x","namespace":"default"},"spec":{"authClassName":"x","rules":[]},"status":{"activeIn":"` + activeIn + `"}}`))
 
 			return
 		}
@@ -734,6 +742,8 @@ func TestKubernetesProviderConverges(t *testing.T) {
 				TypeMeta:   metav1.TypeMeta{APIVersion: "heimdall.dadrus.github.com/v1alpha4", Kind: "RuleSet"},
 				ObjectMeta: metav1.ObjectMeta{Name: fmt.Sprintf("src%d", s), Namespace: "default", UID: types.UID(fmt.Sprintf("uid-%d", s)), Generation: gen},
 				Spec:       v1alpha4.RuleSetSpec{AuthClassName: class, Rules: ruleSetRules(s, kind)},
+				// whatever the status says (other instances and other controllers write it as well)
+				Status: v1alpha4.RuleSetStatus{ActiveIn: rapid.SampledFrom([]string{"", "", "1/1", "2/3", "1", "x", "1/2/3", "/"}).Draw(t, "activeIn")},
 			}
 		}
 
@@ -745,7 +755,7 @@ func TestKubernetesProviderConverges(t *testing.T) {
 			old := objects[s]
 
 			// status updates may fail in any way: loading the rules must not depend on them
-			mode := rapid.SampledFrom([]int32{0, 0, 0, 1, 2, 3}).Draw(t, "apiServer")
+			mode := rapid.SampledFrom([]int32{0, 0, 0, 1, 2, 3, 4, 5}).Draw(t, "apiServer")
 			if exclK8sPanic && mode == 2 {
 				vkit.S.Exclude(kfK8sStatusPanic)
 
@@ -767,7 +777,15 @@ func TestKubernetesProviderConverges(t *testing.T) {
 
 				history = append(history, fmt.Sprintf("delete src%d", s))
 
-				guard(t, history, func() { h.OnDelete(old) })
+				if rapid.IntRange(0, 2).Draw(t, "tombstone") == 0 {
+					// the informer missed the delete event and learns about it from a re-list: it hands a tombstone
+					history[len(history)-1] += " (as DeletedFinalStateUnknown)"
+
+					guard(t, history, func() { h.OnDelete(k8scache.DeletedFinalStateUnknown{Key: "default/" + old.Name, Obj: old}) })
+				} else {
+					guard(t, history, func() { h.OnDelete(old) })
+				}
+
 				delete(objects, s)
 				checkStep(t, w, rec, m, nsrc, want, history)
 			case op == "resync" && old != nil:
